@@ -53,6 +53,7 @@ func c07Plan(rng *lib.Rand, idx uint64) *ref.Plan {
 		BigEndian:     50,
 		Unknown:       25,
 		BigFileId:     4,
+		DevDescribe:   30,
 		Compressed:    15,
 		NoTimeZero:    true,
 		Mesgs:         lib.HostedMesgs(ft),
